@@ -69,6 +69,8 @@ def _origin(expr, assigns, seen=()):
         if kinds == {"copy"}:
             return "copy"
         return None
+    if isinstance(expr, ast.Attribute) and dotted(expr) == "self._df":
+        return "copy"            # _BaseGroupedData.__init__ stores df.copy()
     if isinstance(expr, ast.Call) and isinstance(expr.func, ast.Attribute) and expr.func.attr == "__wrapped__" \
             and isinstance(expr.func.value, ast.Attribute):
         o = _origin(expr.func.value.value, assigns, seen)      # X.method.__wrapped__(X, ...): a frame derived from X
@@ -147,9 +149,9 @@ def _wrapped_delegate(func):
 
 
 def reselect_kind(func, label):
-    """how the method re-selects its columns: SelPublicCopy | SelPrivate (fail-closed)"""
+    """how the method's CLOSING select (the last select call in the body) is made: SelPublicCopy | SelPrivate (fail-closed)"""
     assigns = _assignments(func)
-    kinds = set()
+    found = []
     for n in ast.walk(func):
         if not isinstance(n, ast.Call):
             continue
@@ -161,7 +163,7 @@ def reselect_kind(func, label):
             kws = {k.arg for k in n.keywords}
             if "skip_update_display_name_mapping" not in kws:
                 raise Untranslatable(f"{label}: select.__wrapped__ without skip_update_display_name_mapping")
-            kinds.add("SelPrivate")
+            found.append((n.lineno, n.col_offset, "SelPrivate"))
         elif isinstance(n.func, ast.Attribute) and n.func.attr == "select":
             base = n.func.value
             bd = dotted(base) or ""
@@ -169,14 +171,12 @@ def reselect_kind(func, label):
                 continue                       # sqlglot-level select on an expression tree
             o = _origin(base, assigns)
             if o == "copy":
-                kinds.add("SelPublicCopy")
+                found.append((n.lineno, n.col_offset, "SelPublicCopy"))
             else:
                 raise Untranslatable(f"{label}: `{ast.unparse(n.func)}` is called on an object I cannot classify")
-    if "SelPublicCopy" in kinds:
-        return "SelPublicCopy"
-    if kinds == {"SelPrivate"}:
-        return "SelPrivate"
-    raise Untranslatable(f"{label}: no closing select found")
+    if not found:
+        raise Untranslatable(f"{label}: no closing select found")
+    return max(found)[2]
 
 
 def col_facts(fn_tree):
@@ -232,6 +232,13 @@ def update_facts(df_tree):
                 raise Untranslatable(f"{RECORD}: display-name choice is not an isinstance test")
             if isinstance(n.orelse, ast.Name) and dotted(n.test.args[0]) == n.orelse.id:
                 return True          # a str argument is recorded as given
+            if isinstance(n.orelse, ast.Call) and dotted(n.orelse.func) == "self._display_name" and len(n.orelse.args) == 1 \
+                    and dotted(n.orelse.args[0]) == dotted(n.test.args[0]):
+                h = ast.unparse(py2v.find_method(df_tree, "BaseDataFrame", "_display_name"))
+                for needle in ("to_column(", ".name", "return name"):
+                    if needle not in h:
+                        raise Untranslatable(f"_display_name: `{needle}` not found")
+                return False         # ... as the text of the identifier it denotes (back-ticks stripped)
             raise Untranslatable(f"{RECORD}: a non-Column argument is recorded as `{ast.unparse(n.orelse)}`")
     raise Untranslatable(f"{RECORD}: display-name choice not found")
 
@@ -332,7 +339,7 @@ def generate(repo: str):
         if needle not in dd:
             raise Untranslatable(f"dropDuplicates: `{needle}` not found (composite shape changed)")
     dn = ast.unparse(py2v.find_method(df_tree, "BaseDataFrame", "dropna"))
-    for needle in (".alias('num_nulls')", "append=True", ".where(", ".select(*all_columns)"):
+    for needle in (".alias('num_nulls')", "append=True", ".where(", "*all_columns"):
         if needle not in dn:
             raise Untranslatable(f"dropna: `{needle}` not found (composite shape changed)")
     # agg delegates to groupBy().agg
@@ -343,6 +350,20 @@ def generate(repo: str):
     jn = py2v.find_method(df_tree, "BaseDataFrame", "join")
     if reselect_kind(jn, "join") != "SelPrivate":
         raise Untranslatable("join: does not close with the private select on a copy of self")
+    jsrc = ast.unparse(jn)
+    if "other_df.display_name_mapping" in jsrc or "other.display_name_mapping" in jsrc:
+        for needle in ("new_df.display_name_mapping.update(", "other_df.display_name_mapping.items()", "not in left_names",
+                       "left_names = {column.alias_or_name for column in self_columns}"):
+            if needle not in jsrc:
+                raise Untranslatable(f"join: merges the right frame's display names in a shape I do not know (`{needle}` missing)")
+        join_merges = True
+    else:
+        join_merges = False
+    td = ast.unparse(py2v.find_method(df_tree, "BaseDataFrame", "toDF"))
+    if rec["MToDF"] != "RNone" and (".alias(" not in td or "exp.alias_(" in td):
+        raise Untranslatable("toDF records display names but does not build its aliases with Column.alias")
+    if rec["MToDF"] == "RNone" and "exp.alias_(col, new_col)" not in td:
+        raise Untranslatable("toDF: alias construction changed")
 
     kinds = {}
     for m, py in DF_METHODS.items():
@@ -379,7 +400,7 @@ def generate(repo: str):
              " | ".join(f"{m} => {('Some ' + kinds[m]) if kinds[m] else 'None'}" for m in ALL_METH) + " end.")
     L.append("Definition gen_cfg : cfg := mkCfg gen_rec_of gen_resel_of gen_kind_of "
              f"wrap_needed_df new_kind_df {b(w_df['init_wraps'])} wrap_needed_group new_kind_group {b(w_gr['init_wraps'])} "
-             f"{('(Some ' + gkind + ')') if gkind else 'None'} {b(col_ident)} {b(alias_raw)} {b(str_raw)} "
+             f"{('(Some ' + gkind + ')') if gkind else 'None'} {b(col_ident)} {b(alias_raw)} {b(str_raw)} {b(join_merges)} "
              f"{b(views['v_columns_map'])} {b(views['v_sql_map'])} {b(views['v_schema_map'])} {b(views['v_collect_case'])}.")
     facts = [
         {"name": "rec_of", "from": "dataframe.py/session.py/group.py: calls of _update_display_name_mapping", "value": rec},
@@ -395,6 +416,7 @@ def generate(repo: str):
         {"name": "col_disp_ident", "from": "functions.py: col", "value": col_ident},
         {"name": "alias_disp_raw", "from": "column.py: Column.alias", "value": alias_raw},
         {"name": "str_disp_raw", "from": "dataframe.py: _update_display_name_mapping", "value": str_raw},
+        {"name": "join_merges", "from": "dataframe.py: join", "value": join_merges},
         {"name": "views", "from": "dataframe.py: columns/_set_display_names/_get_expressions/schema; session.py: _collect", "value": views},
     ]
     return "\n".join(L) + "\n", facts
